@@ -104,7 +104,8 @@ def view_schema(package, byte_order):
     S = base_schema(package, byte_order,
                     dims=[dim(), dim("dim8x32", bl="uint8", num="uint32", order=("numInGroup", "blockLength")),
                           dim("dimCnt", bl="uint16", num="uint8", counters=("numGroups", "numVarDataFields"))],
-                    datas=[vardata(), vardata("varStr8", "uint8", "char"), vardata("var16", "uint16", "int8")])
+                    datas=[vardata(), vardata("varStr8", "uint8", "char"), vardata("var16", "uint16", "int8"),
+                           vardata("var64", "uint64", "uint8")])
     m = S["messages"]
     # m1: every primitive as a root field, required
     m.append(G("prims", 1, fields=[F("f_" + p, i + 1, p) for i, p in enumerate(PRIM_FIELDS)]
@@ -156,6 +157,15 @@ def view_schema(package, byte_order):
                        G("gn", 13, fields=[F("a", 1, "uint8"), F("z", 2, "u32opt"), F("k", 3, "cconst")])]))
     m.append(G("dataonly", 9, fields=[F("x", 1, "uint16")], blockLength=3,
                data=[D("d1", 1, "varStr8"), D("d2", 2), D("d3", 3, "var16")]))
+    # m10-m12: messages without any cursor-accessible member: nothing at all,
+    # only constant fields, reserved space only (explicit blockLength) - the root
+    # block still has its wire length (the repository's test_schema Msg1 is of
+    # this kind; found when its own schemas were run through Visit.tla)
+    m.append(G("nomembers", 10, fields=[]))
+    m.append(G("constonly", 11, fields=[F("k", 1, "cconst"), F("k2", 2, "e8", presence="constant", valueRef="e8.B")]))
+    m.append(G("reserved", 12, fields=[], blockLength=6))
+    # m13: <data> with a 64-bit length prefix (prefix size + length can exceed size_t)
+    m.append(G("wide64", 13, fields=[F("x", 1, "uint8")], data=[D("d64", 1, "var64"), D("d32", 2)]))
     return S
 
 
